@@ -149,6 +149,7 @@ def unit_contract_normalize(ctx):
     sess = ctx.session([l >= 0, l * l == Q.sq(x)] + [oc * l == xc for oc, xc in zip(o.c, x.c)])
     ctx.reach(sess, f"twin:{nm}", Q.sq(x) != 0)
     ctx.prove(sess, f"{nm}:nonzero=>unit", Q.sq(o) * l * l == l * l, Q.sq(x) != 0, names={"x0": x.c[0]}, replay=lambda m: (False, "model of a builtin"), desc="normalize(x) is not unit")
+    ctx.prove(sess, f"{nm}:unit=>unchanged", And(*[oc == xc for oc, xc in zip(o.c, x.c)]), Q.sq(x) == 1, replay=lambda m: (False, "model of a builtin"), desc="normalize(x) != x for |x| = 1")
     ctx.prove(sess, f"{nm}:nonzero=>l>0", l > 0, Q.sq(x) != 0, replay=lambda m: (False, "model of a builtin"), desc="|x| = 0 for x != 0")
 
 
@@ -427,6 +428,9 @@ def unit_zero_quat(ctx):
 
 
 def main(tier, seed, only=None):
+  import mujoco_warp  # noqa: imported once here so that the forked unit processes inherit the loaded modules
+  from mujoco_warp._src import forward, smooth, support, util_misc  # noqa
+
   units = [
     ("contract/quat_to_mat", unit_contract_quat_to_mat),
     ("contract/mul_quat", unit_contract_mul_quat),
